@@ -281,6 +281,17 @@ def lru_tolerance(ctx):
                   "eviction delete is not protected against KeyError: a concurrent eviction makes get_template/put_string raise KeyError", "KeyError handled")
 
 
+def _same_branch(a, b):
+    """b is in the same block as a (or nested below a's block), i.e. executes after a on some path"""
+    pa = getattr(a, "_parent", None)
+    x = b
+    while x is not None:
+        if getattr(x, "_parent", None) is pa:
+            return True
+        x = getattr(x, "_parent", None)
+    return False
+
+
 SHARED_NAMES = {"template", "tmpl", "error_template", "t", "self.template", "self._with_template", "context._with_template", "template.module", "self.template.module", "module"}
 
 
@@ -320,6 +331,18 @@ def render_isolation(ctx):
                     ctx.ok(key, db.where(n), "allow-listed: " + a)
                 else:
                     ctx.violation(key, db.where(n), "render-path code mutates shared object `%s` (a Template / generated module): concurrent renders and a failed render leave state behind" % tgt)
+    # the allow-listed memo must be published completely built: no mutation of the stored object after the store
+    gk = db.func("cache.Cache._get_cache_kw")
+    pubs = []
+    for s in walk_func(gk):
+        if isinstance(s, ast.Assign) and any(isinstance(t, ast.Subscript) and dotted(t.value) == "self._def_regions" for t in s.targets) and isinstance(s.value, ast.Name):
+            pubs.append((s, s.value.id))
+        elif isinstance(s, ast.Assign) and isinstance(s.value, ast.Call) and dotted(s.value.func) == "self._def_regions.setdefault" and isinstance(s.targets[0], ast.Name):
+            pubs.append((s, s.targets[0].id))
+    for s, name in pubs:
+        later = [c for c in walk_func(gk) if isinstance(c, ast.Call) and isinstance(c.func, ast.Attribute) and dotted(c.func.value) == name and c.func.attr in ("update", "setdefault", "pop", "clear", "__setitem__") and c.lineno > s.lineno and _same_branch(s, c)]
+        later += [t for t in walk_func(gk) if isinstance(t, ast.Subscript) and isinstance(t.ctx, ast.Store) and dotted(t.value) == name and t.lineno > s.lineno and _same_branch(s, t)]
+        ctx.check(not later, "memo-published-complete:%d" % (s.lineno - gk.lineno), db.where(s), "the per-def cache arguments are stored in the shared _def_regions and modified afterwards (%s): a second thread's first call of the cached def sees the half-built entry and runs with the wrong cache arguments" % [src(x) for x in later][:2], "stored after it is completely built")
     ctx.note("stores_scanned", n_scanned)
     ctx.require(n_scanned >= 30, "write-effect scan saw only %d stores in runtime.py/cache.py" % n_scanned)
     # per-render classification of what remains: Context.* / Namespace.* / stacks store into self or locals
